@@ -14,7 +14,8 @@ def ackCount : List Event → Nat
 
 /-- a SETTINGS frame the peer may expect an acknowledgement for (not itself a protocol violation) -/
 def validSettings (vals : List (Nat × Nat)) : Bool :=
-  !(vals.any (fun p => p.1 == sInitialWindowSize && decide (p.2 > 2147483647)))
+  !(vals.any (fun p => (p.1 == sInitialWindowSize && decide (p.2 > 2147483647)) ||
+      (p.1 == sMaxFrameSize && (decide (p.2 < 16384) || decide (p.2 > 16777215)))))
 
 /-- SETTINGS frames sent by the peer that call for an acknowledgement -/
 def settingsCount : List Event → Nat
